@@ -308,6 +308,7 @@ int main(int argc, char **argv) {
     po.defaultsOnly = rs["popts"]["defaultsOnly"].asBool();
     po.reorder = rs["popts"]["reorder"].asBool();
     po.wideOrdering = rs["popts"]["wideOrdering"].asBool();
+    po.reorderFocus = rs["popts"].has("reorderFocus") && rs["popts"]["reorderFocus"].asBool();
     ColoquinteParameters p = vg::genParams(pr, po);
     if (rs.has("explicit")) p = ColoquinteParameters((int)rs["effort"].asInt(), 7);
     if (rs.has("maxsteps")) {
@@ -389,7 +390,7 @@ int main(int argc, char **argv) {
       std::string sc = b["variant"].asInt() % 2 ? "full" : "det";
       Value rs = vt::ev("Reset");
       Value pov = Value::object();
-      pov.set("defaultsOnly", po.defaultsOnly).set("reorder", po.reorder).set("wideOrdering", po.wideOrdering);
+      pov.set("defaultsOnly", po.defaultsOnly).set("reorder", po.reorder).set("wideOrdering", po.wideOrdering).set("reorderFocus", po.reorderFocus);
       rs.set("run", k).set("scen", sc).set("gseed", (long long)s).set("pseed", (long long)pseed).set("popts", pov).set("c07", b);
       rs.set("withCb", false).set("params", vg::paramsToJson(p)).set("circ", vp::circuitToJson(base)).set("wl", 0);
       rs.set("maxsteps", p.global.maxNbSteps);
@@ -420,6 +421,7 @@ int main(int argc, char **argv) {
   vg::ParamOpts po;
   po.defaultsOnly = argi("defaultParams", 0);
   po.reorder = argi("reorder", 1);
+  po.reorderFocus = argi("reorderFocus", 0);
   po.wideOrdering = argi("wideOrdering", 1);
   int cbMode = (int)argi("cb", 2);  // 0 never, 1 always, 2 random
 
@@ -452,7 +454,7 @@ int main(int argc, char **argv) {
     bool withCb = cbMode == 1 || (cbMode == 2 && r.chance(0.7));
     Value rs = vt::ev("Reset");
     Value pov = Value::object();
-    pov.set("defaultsOnly", po.defaultsOnly).set("reorder", po.reorder).set("wideOrdering", po.wideOrdering);
+    pov.set("defaultsOnly", po.defaultsOnly).set("reorder", po.reorder).set("wideOrdering", po.wideOrdering).set("reorderFocus", po.reorderFocus);
     rs.set("run", (long long)k).set("scen", scen).set("gseed", (long long)s).set("pseed", (long long)pseed).set("popts", pov);
     rs.set("withCb", withCb).set("params", vg::paramsToJson(p)).set("circ", vp::circuitToJson(base)).set("wl", base.hpwl());
     vt::emit(rs);
